@@ -58,25 +58,27 @@ theorem cmpInts_table (a b : Num) (x y : F) (hfa : C16.isInt a = true) (hfb : C1
     | f _ => simp [C16.isInt] at hfb
     | i w =>
       simp [cmpInts_ast, runArms, BE.eval, IE.eval, kindIs, unify, execList, St.exec, asInt, env, fieldI, fieldU,
-        Option.bind, cmpInts]
+        Option.bind, cmpInts, lookup, holds_compare, r63, r64]
+      all_goals (try simp [Rel.holds])
     | u w =>
-      simp [cmpInts_ast, runArms, BE.eval, IE.eval, kindIs, unify, execList, St.exec, asInt, env, fieldI, fieldU,
-        Option.bind, cmpInts, holds_compare, r63]
-      by_cases h : v < 0
-      · simp [h, ordInt]
-      · simp [h]
+      by_cases h : v < 0 <;>
+        simp [cmpInts_ast, runArms, BE.eval, IE.eval, kindIs, unify, execList, St.exec, asInt, env, fieldI, fieldU,
+          Option.bind, cmpInts, lookup, holds_compare, r63, r64, h, ordInt]
+      all_goals (try simp [Rel.holds, h, ordInt])
+      all_goals (try omega)
   | u v =>
     cases b with
     | f _ => simp [C16.isInt] at hfb
     | u w =>
       simp [cmpInts_ast, runArms, BE.eval, IE.eval, kindIs, unify, execList, St.exec, asInt, env, fieldI, fieldU,
-        Option.bind, cmpInts]
+        Option.bind, cmpInts, lookup, holds_compare, r63, r64]
+      all_goals (try simp [Rel.holds])
     | i w =>
-      simp [cmpInts_ast, runArms, BE.eval, IE.eval, kindIs, unify, execList, St.exec, asInt, env, fieldI, fieldU,
-        Option.bind, cmpInts, holds_compare, r63]
-      by_cases h : w < 0
-      · simp [h, ordInt]
-      · simp [h]
+      by_cases h : w < 0 <;>
+        simp [cmpInts_ast, runArms, BE.eval, IE.eval, kindIs, unify, execList, St.exec, asInt, env, fieldI, fieldU,
+          Option.bind, cmpInts, lookup, holds_compare, r63, r64, h, ordInt]
+      all_goals (try simp [Rel.holds, h, ordInt])
+      all_goals (try omega)
 
 /-- The regenerated `cmpInts` decides the mathematical order of the two integers. -/
 theorem cmpInts_table_exact (a b : Num) (x y : F) (ha : C16.Num.wf a) (hb : C16.Num.wf b)
@@ -122,12 +124,12 @@ theorem multipleOfInts_table (a b : Num) (x y : F) (ha : C16.Num.wf a) (hb : C16
       by_cases hd : d = 0
       · subst hd
         simp [multipleOfInts_ast, runArms, BE.eval, IE.eval, kindIs, unify, execList, St.exec, asInt, env, fieldI, fieldU,
-          Option.bind, multipleOfInts, holds_compare, r63]
+          Option.bind, multipleOfInts, holds_compare, lookup, r63, r64]
         all_goals (try simp [Rel.holds])
         all_goals (try exact dec_beq _ _)
         all_goals (try omega)
       · simp [multipleOfInts_ast, runArms, BE.eval, IE.eval, kindIs, unify, execList, St.exec, asInt, env, fieldI, fieldU,
-          Option.bind, multipleOfInts, holds_compare, r63, hd, goRem]
+          Option.bind, multipleOfInts, holds_compare, lookup, r63, r64, hd, goRem]
         all_goals (try simp [Rel.holds])
         all_goals (try exact dec_beq _ _)
         all_goals (try omega)
@@ -142,7 +144,7 @@ theorem multipleOfInts_table (a b : Num) (x y : F) (ha : C16.Num.wf a) (hb : C16
       by_cases hd : d = 0
       · subst hd
         simp [multipleOfInts_ast, runArms, BE.eval, IE.eval, kindIs, unify, execList, St.exec, asInt, env, fieldI, fieldU,
-          Option.bind, multipleOfInts, holds_compare, r63, r64]
+          Option.bind, multipleOfInts, holds_compare, lookup, r63, r64]
         all_goals (try simp [Rel.holds])
         all_goals (try exact dec_beq _ _)
         all_goals (try omega)
@@ -150,14 +152,14 @@ theorem multipleOfInts_table (a b : Num) (x y : F) (ha : C16.Num.wf a) (hb : C16
         · have hbig' : (9223372036854775807 : Int) < d := by rw [p63] at hbig; omega
           by_cases h0 : v = 0 <;> by_cases h1 : v = -9223372036854775808 <;> by_cases h2 : d = 9223372036854775808 <;>
           simp [h0, h1, h2, multipleOfInts_ast, runArms, BE.eval, IE.eval, kindIs, unify, execList, St.exec, asInt, env, fieldI, fieldU,
-            Option.bind, multipleOfInts, holds_compare, r63, r64, hd, hbig, hbig', c1, c2, c3, p63]
+            Option.bind, multipleOfInts, holds_compare, lookup, r63, r64, hd, hbig, hbig', c1, c2, c3, p63]
           all_goals (try simp [Rel.holds])
           all_goals (try exact dec_beq _ _)
           all_goals (try omega)
         · have hsmall : ¬ (9223372036854775807 : Int) < d := by rw [p63] at hbig; omega
           have hw : wrapI d = d := wrapI_id d (by rw [p63] at *; omega)
           simp [multipleOfInts_ast, runArms, BE.eval, IE.eval, kindIs, unify, execList, St.exec, asInt, env, fieldI, fieldU,
-            Option.bind, multipleOfInts, holds_compare, r63, r64, hd, hbig, hsmall, c1, c2, c3, hw, goRem]
+            Option.bind, multipleOfInts, holds_compare, lookup, r63, r64, hd, hbig, hsmall, c1, c2, c3, hw, goRem]
           all_goals (try simp [Rel.holds])
           all_goals (try exact dec_beq _ _)
           all_goals (try omega)
@@ -168,12 +170,12 @@ theorem multipleOfInts_table (a b : Num) (x y : F) (ha : C16.Num.wf a) (hb : C16
       by_cases hd : d = 0
       · subst hd
         simp [multipleOfInts_ast, runArms, BE.eval, IE.eval, kindIs, unify, execList, St.exec, asInt, env, fieldI, fieldU,
-          Option.bind, multipleOfInts, holds_compare, r64]
+          Option.bind, multipleOfInts, holds_compare, lookup, r63, r64]
         all_goals (try simp [Rel.holds])
         all_goals (try exact dec_beq _ _)
         all_goals (try omega)
       · simp [multipleOfInts_ast, runArms, BE.eval, IE.eval, kindIs, unify, execList, St.exec, asInt, env, fieldI, fieldU,
-          Option.bind, multipleOfInts, holds_compare, r64, hd]
+          Option.bind, multipleOfInts, holds_compare, lookup, r63, r64, hd]
         all_goals (try simp [Rel.holds])
         all_goals (try exact dec_beq _ _)
         all_goals (try omega)
@@ -185,7 +187,7 @@ theorem multipleOfInts_table (a b : Num) (x y : F) (ha : C16.Num.wf a) (hb : C16
       by_cases hd : d = 0
       · subst hd
         simp [multipleOfInts_ast, runArms, BE.eval, IE.eval, kindIs, unify, execList, St.exec, asInt, env, fieldI, fieldU,
-          Option.bind, multipleOfInts, holds_compare, r63, r64]
+          Option.bind, multipleOfInts, holds_compare, lookup, r63, r64]
         all_goals (try simp [Rel.holds])
         all_goals (try exact dec_beq _ _)
         all_goals (try omega)
